@@ -46,6 +46,18 @@ def has_seq(t, D):
     if t == "T": return False
     return False
 
+def is_var(t, D):
+    """value-dependent encoded size (symbolic variant / presence => symbolic offsets for what follows)"""
+    if t.startswith("Option<") or t.startswith("Result<"): return True
+    base = t.split("<")[0]
+    if base in D:
+        d = D[base]
+        if isinstance(d, Enum):
+            return any(len(v[2]) > 0 for v in d.variants)
+        return any(is_var(f, D) for f in d.fields)
+    if t.startswith("(") or t.startswith("["): return "Option<" in t
+    return False
+
 def catalogue():
     D = []
     q = lambda *a, **k: D.append(Struct(*a, tier="q", **k))
@@ -189,26 +201,27 @@ def gen_dtypes():
     allD.update({e.name: e for e in E})
     out = ["//! GENERATED by gen/generate.py — do not edit. D: derived definitions (DESIGN §4).",
            "#![allow(non_camel_case_types, dead_code)]", "use crate::vt::*;", "use savefile::prelude::*;", ""]
-    entries = []  # (tier, harness name, rust type, has_seq, note, definition text)
+    entries = []  # (tier, harness name, rust type, has_seq, note, definition text, is_var)
     for e in E:
         o = []
         inst = emit_enum(e, o)
         out += o
-        entries.append((e.tier, "d_" + e.name, inst, e.has_seq(allD), e.note, o[0]))
+        entries.append((e.tier, "d_" + e.name, inst, e.has_seq(allD), e.note, o[0], is_var(e.name, allD)))
     for s in D:
         o = []
         inst = emit_struct(s, o, allD)
         out += o
-        entries.append((s.tier, "d_" + s.name, inst, s.has_seq(allD), s.note, o[0]))
+        entries.append((s.tier, "d_" + s.name, inst, s.has_seq(allD), s.note, o[0], is_var(s.name, allD)))
     # catalogue macros
     for tier in ("q", "t"):
-        out.append("#[macro_export]\nmacro_rules! cat_dfixed_%s { ($m:ident) => {" % tier)
-        for (t, n, ty_, hs, note, _d) in entries:
-            if t == tier and not hs:
-                out.append("    $m!(%s, %s, 5, 0);" % (n, ty_))
-        out.append("}; }")
+        for kind, sel in (("dfixed", lambda hs, var: not hs and not var), ("dvar", lambda hs, var: not hs and var)):
+            out.append("#[macro_export]\nmacro_rules! cat_%s_%s { ($m:ident) => {" % (kind, tier))
+            for (t, n, ty_, hs, note, _d, var) in entries:
+                if t == tier and sel(hs, var):
+                    out.append("    $m!(%s, %s, 5, 0);" % (n, ty_))
+            out.append("}; }")
         out.append("#[macro_export]\nmacro_rules! cat_dseq_%s { ($m:ident, $l:expr) => {" % tier)
-        for (t, n, ty_, hs, note, _d) in entries:
+        for (t, n, ty_, hs, note, _d, var) in entries:
             if t == tier and hs:
                 out.append("    $m!(%s, %s, 6, $l);" % (n, ty_))
         out.append("}; }")
@@ -220,6 +233,7 @@ macro_rules! instantiate_derived {
             use super::*;
             use crate::dtypes::*;
             cat_dfixed_q!($m);
+            cat_dvar_q!($m);
             pub mod l0 { use super::super::*; use crate::dtypes::*; cat_dseq_q!($m, 0); }
             pub mod l2 { use super::super::*; use crate::dtypes::*; cat_dseq_q!($m, 2); }
         }
@@ -227,6 +241,7 @@ macro_rules! instantiate_derived {
             use super::*;
             use crate::dtypes::*;
             cat_dfixed_t!($m);
+            cat_dvar_t!($m);
             pub mod l1 { use super::super::*; use crate::dtypes::*; cat_dseq_q!($m, 1); cat_dseq_t!($m, 1); }
             pub mod l3 { use super::super::*; use crate::dtypes::*; cat_dseq_t!($m, 3); }
         }
@@ -236,7 +251,7 @@ macro_rules! instantiate_derived {
     txt = "\n".join(out) + "\n"
     if not os.path.exists(path) or open(path).read() != txt:
         open(path, "w").write(txt)
-    cat = [{"harness": n, "type": ty_, "tier": t, "note": note, "definition": d} for (t, n, ty_, hs, note, d) in entries]
+    cat = [{"harness": n, "type": ty_, "tier": t, "note": note, "definition": d} for (t, n, ty_, hs, note, d, var) in entries]
     json.dump(cat, open(os.path.join(V, "gen", "catalogue_D.json"), "w"), indent=0)
     return len(entries)
 
